@@ -6,6 +6,7 @@ package main
 //   (b) key_access.go accessor totality on enumerated hand-built and transported objects, compared with the
 //                     Lean model (`key.access`), a panic = C14 violation
 //   (b') key_reuse.go accessor results depend only on the object's present content (object reuse, impl-side oracle)
+//   (b") key_fresh.go what is extracted depends only on the message transported, not on what the destination held before
 //   (c) this file     lexical forms of big integers / byte strings of the real XML / JSON / TTLV writers and
 //                     readers against the model (`key.big`, `key.bigread`, `key.hex`, `key.unhex`)
 
@@ -480,6 +481,8 @@ func keyReplay(env *keyEnv, l string) {
 		}
 	case "key.reuse":
 		keyReuseReplay(env, arg)
+	case "key.fresh":
+		keyFreshReplay(env, arg)
 	case "key.retain":
 		// #key.retain <ver> <scenario>
 		if len(f) != 2 {
@@ -576,6 +579,8 @@ func keyRun(ctx *Ctx) {
 	keyRunAccessPart(env)
 	t1b := time.Now()
 	keyRunReusePart(env)
+	t1c := time.Now()
+	keyRunFreshPart(env)
 	t2 := time.Now()
 	keyRunRtPart(env)
 	keyRunCustomPart(env)
@@ -584,7 +589,7 @@ func keyRun(ctx *Ctx) {
 	keyRegSweep(env)
 	t3 := time.Now()
 	keyRunRetainPart(env)
-	fmt.Fprintf(os.Stderr, "key: lex %.1fs access %.1fs reuse %.1fs rt %.1fs retain %.1fs\n", t1.Sub(t0).Seconds(), t1b.Sub(t1).Seconds(), t2.Sub(t1b).Seconds(), t3.Sub(t2).Seconds(), time.Since(t3).Seconds())
+	fmt.Fprintf(os.Stderr, "key: lex %.1fs access %.1fs reuse %.1fs fresh %.1fs rt %.1fs retain %.1fs\n", t1.Sub(t0).Seconds(), t1b.Sub(t1).Seconds(), t1c.Sub(t1b).Seconds(), t2.Sub(t1c).Seconds(), t3.Sub(t2).Seconds(), time.Since(t3).Seconds())
 }
 
 var _ = rng.New
